@@ -95,6 +95,10 @@ def data_leaves(expr, func, seen=None):
                 pass
             go_elt(e.elt, bound, role)
             return
+        if isinstance(e, ast.Call) and isinstance(e.func, ast.Name) and e.func.id == "len" and len(e.args) == 1 and not e.keywords:
+            # only the number of elements can show in the text (`[placeholder] * len(values)`): a count, not a value
+            out.append((e, "count"))
+            return
         if isinstance(e, ast.Call):
             out.append((e, role))
             return
@@ -500,13 +504,31 @@ def _factory(cx, factory):
 
 def _normalisation(cx, init, make, tables):
     """R15e + R15b by finite abstract interpretation."""
-    it = Interp(record_calls=("append", "extend", "insert"))
+    # class-level constant tables of the condition class (operator lists / maps), by the texts they are read through
+    consts = {}
+    owner_ = enclosing(init, (ast.ClassDef,))
+    for st_ in (owner_.body if owner_ is not None else []):
+        if isinstance(st_, ast.Assign) and len(st_.targets) == 1 and isinstance(st_.targets[0], ast.Name) and st_.targets[0].id not in ("_SQL_CLAUSES",):
+            try:
+                v_ = literal(st_.value, cx.repo.modules[REL])
+            except Exception:
+                continue
+            if isinstance(v_, (list, tuple, set, frozenset, dict)):
+                for pre in ("self", "cls", owner_.name):
+                    consts[f"{pre}.{st_.targets[0].id}"] = v_
+    it = Interp(record_calls=("append", "extend", "insert"), consts=consts)
     n_cases = 0
     kinds = [("none", None), ("list", False), ("list", True), ("tuple", False), ("tuple", True), ("set", False), ("set", True),
              ("str", False), ("str", True), ("int", None), ("other", None)]
     ops = OPS + ["like", "in", "is null", "BETWEEN", "<>"]
     p_init = params(init)
     cx.need(p_init[1:] == ["field_name", "op", "value"], "R15e", init, f"constructor parameters changed: {p_init}")
+    # private helpers of the two methods are expanded in place (validation / normalisation moved into a helper)
+    from sa.inline import inlined
+    init, _u1 = inlined(cx.repo.modules[REL], init, nested=True)
+    make, _u2 = inlined(cx.repo.modules[REL], make, nested=True)
+    if _u1 or _u2:
+        cx.note(f"R15e: constructor / renderer interpreted with {sorted(set(_u1) | set(_u2))} expanded in place")
     for op in ops:
         for kind, empty in kinds:
             n_cases += 1
@@ -540,7 +562,10 @@ def _normalisation(cx, init, make, tables):
                     got.add(("raise", o.value))
                 else:
                     fo = o.env.get("self.op")
-                    got.add(("op", fo.v if isinstance(fo, C) else repr(fo)))
+                    if not isinstance(fo, C):
+                        # the interpreter lost the operator (a call it does not follow, a table it cannot fold): no verdict
+                        raise AnalysisError("R15e", f"{REL}::SqlFieldValCondition.__init__", f"{label}: the stored operator is not determined ({fo!r})")
+                    got.add(("op", fo.v))
                     finals.append(o.env)
             ok = got == {want}
             cx.ob("R15e", init, ok, f"{label} -> {want[1]}" if ok else f"{label}: constructor gives {sorted(got)}, the property needs {want}",
